@@ -253,9 +253,53 @@ package jid
 // trimming or other rewriting in between) and store exactly its result; the
 // element decoder reads the character data of the element.
 //@ func (*JID).UnmarshalXML
+//@   ensures[C11] err == nil ==> *j == pj
+//@   ghost pj JID
 //@   callsite Parse#1
 //@     assert[C11] arg0 == data.CharData
+//@     after: pj = ret0
 //@ func (*JID).UnmarshalXMLAttr
 //@   callsite Parse#1
 //@     assert[C11] arg0 == attr.Value
 //@ wire[C11] func:(*JID).UnmarshalXML#1.CharData chardata
+
+// C11: the remaining functions of jid.go. Parse is "split safely, then New";
+// the part accessors return exactly the three ranges; Copy is the same
+// address; the XML encoders write exactly the string form; the decoders store
+// exactly what Parse returned; replacing the domain keeps the other two parts.
+//@ func SplitString
+//@   callsite splitString#1
+//@     assert[C11] arg0 == s && arg1
+//@ func Parse
+//@   ghost lp string
+//@   ghost dp string
+//@   ghost rp string
+//@   callsite SplitString#1
+//@     assert[C11] arg0 == s
+//@     after: lp = ret0
+//@     after: dp = ret1
+//@     after: rp = ret2
+//@   callsite New#1
+//@     assert[C11] arg0 == lp && arg1 == dp && arg2 == rp
+//@ func (JID).Localpart
+//@   ensures[C11] len(result) == j.locallen && (forall k int :: 0 <= k && k < j.locallen ==> result[k] == j.data[k])
+//@ func (JID).Domainpart
+//@   ensures[C11] len(result) == j.domainlen && (forall k int :: 0 <= k && k < j.domainlen ==> result[k] == j.data[j.locallen+k])
+//@ func (JID).Resourcepart
+//@   ensures[C11] len(result) == len(j.data) - j.locallen - j.domainlen && (forall k int :: 0 <= k && k < len(result) ==> result[k] == j.data[j.locallen+j.domainlen+k])
+//@ func (JID).Copy
+//@   ensures[C11] result == j
+//@ func (JID).MarshalXMLAttr
+//@   ensures[C11] result1 == nil && result0.Name == name && result0.Value == strOf(j)
+//@ func (JID).MarshalXML
+//@   ghost n int = 0
+//@   callsite (*encoding/xml.Encoder).EncodeToken#1
+//@     assert[C11] typeof(arg1) == xml.StartElement && arg1.(xml.StartElement) == start
+//@   callsite (*encoding/xml.Encoder).EncodeToken#2
+//@     assert[C11] typeof(arg1) == xml.CharData && len(arg1.(xml.CharData)) == len(strOf(j)) && (forall k int :: 0 <= k && k < len(strOf(j)) ==> arg1.(xml.CharData)[k] == strOf(j)[k])
+//@   callsite (*encoding/xml.Encoder).EncodeToken#3
+//@     assert[C11] typeof(arg1) == xml.EndElement && arg1.(xml.EndElement).Name == start.Name
+//@ func (JID).WithDomain
+//@   ensures[C11] result1 == nil ==> 1 <= result0.domainlen && result0.domainlen <= 1023 && result0.locallen == j.locallen && len(result0.data) - result0.locallen - result0.domainlen == len(j.data) - j.locallen - j.domainlen
+//@   ensures[C11] result1 == nil ==> forall k int :: 0 <= k && k < j.locallen ==> result0.data[k] == j.data[k]
+//@   ensures[C11] result1 == nil ==> forall k int :: 0 <= k && k < len(j.data) - j.locallen - j.domainlen ==> result0.data[result0.locallen+result0.domainlen+k] == j.data[j.locallen+j.domainlen+k]
